@@ -1122,7 +1122,7 @@ class LogicalExpr(CalculusFunction):
             arg = expr.args[0]
             arg = cls(arg, domain, evaluate=True)
 
-            if isinstance(arg, PullBack):
+            if isinstance(arg, PullBack) or arg.atoms(SymbolicDeterminant):
                 arg = TerminalExpr(arg, domain=domain.logical_domain)
             elif isinstance(arg, MatrixElement):
                 arg = TerminalExpr(arg, domain=domain.logical_domain)
@@ -1151,7 +1151,7 @@ class LogicalExpr(CalculusFunction):
 
             arg = expr.args[0]
             arg = cls(arg, domain, evaluate=True)
-            if isinstance(arg, PullBack):
+            if isinstance(arg, PullBack) or arg.atoms(SymbolicDeterminant):
                 arg = TerminalExpr(arg, domain=domain.logical_domain)
             elif isinstance(arg, MatrixElement):
                 arg = TerminalExpr(arg, domain=domain.logical_domain)
@@ -1179,7 +1179,7 @@ class LogicalExpr(CalculusFunction):
 
             arg = expr.args[0]
             arg = cls(arg, domain, evaluate=True)
-            if isinstance(arg, PullBack):
+            if isinstance(arg, PullBack) or arg.atoms(SymbolicDeterminant):
                 arg = TerminalExpr(arg, domain=domain.logical_domain)
             elif isinstance(arg, MatrixElement):
                 arg = TerminalExpr(arg, domain=domain.logical_domain)
